@@ -191,6 +191,11 @@ func c12nativeMethods() []c12method {
 	return out
 }
 
+// opcodes that consume three operands or use an operand as an index/count into the stack or a value
+var c12ternary = map[byte]bool{byte(neovm.SUBSTR): true, byte(neovm.WITHIN): true, byte(neovm.SETITEM): true, byte(neovm.ROT): true,
+	byte(neovm.ROLL): true, byte(neovm.PICK): true, byte(neovm.XTUCK): true, byte(neovm.XSWAP): true, byte(neovm.XDROP): true,
+	byte(neovm.LEFT): true, byte(neovm.RIGHT): true, byte(neovm.PACK): true, byte(neovm.CAT): true, byte(neovm.APPEND): true}
+
 func c12cases(r *vh.Run) []c12case {
 	var cs []c12case
 	// (a) every byte program of length <=2 (<=3 thorough, third byte from a sharp set unless tier allows all)
@@ -252,6 +257,9 @@ func c12cases(r *vh.Run) []c12case {
 			for _, c := range operands {
 				pre := append(append(append([]byte{}, a.code...), b.code...), c.code...)
 				for o := 0; o < 256; o++ {
+					if r.Quick() && !c12ternary[byte(o)] {
+						continue // quick tier: operand triples only before the opcodes that read three operands or an index
+					}
 					cs = append(cs, c12case{fam: "operands-op", desc: fmt.Sprintf("%s,%s,%s op %02x", a.name, b.name, c.name, o), pre: pre, code: []byte{byte(o)}})
 				}
 			}
